@@ -341,7 +341,11 @@ func (c *Ctx) eval(st *State, e ast.Expr) Val {
 	case *ast.TypeAssertExpr:
 		iv := c.eval(st, x.X)
 		t := c.typeOf(x.Type)
-		c.addObl(st, "typeassert", c.ordOf(x, "typeassert"), c.hasDynType(iv, t), "type assertion "+types.ExprString(x)+" at "+c.pos(x))
+		if c.prefix == "" && c.unit.Contract != nil && c.unit.Contract.Flags["assume-typeassert"] {
+			c.note("type assertion " + types.ExprString(x) + " assumed to succeed (flag assume-typeassert: the subscription delivers that type only)")
+		} else {
+			c.addObl(st, "typeassert", c.ordOf(x, "typeassert"), c.hasDynType(iv, t), "type assertion "+types.ExprString(x)+" at "+c.pos(x))
+		}
 		st.assume(c.hasDynType(iv, t))
 		uv := c.unbox(iv, t)
 		for _, f := range c.typeFacts(uv) {
@@ -444,6 +448,9 @@ func (c *Ctx) cellRead(st *State, ref string, t types.Type) Val {
 	}
 	k, as := c.cellKey(t)
 	v := Val{T: sel(c.heapRead(st, k, as), ref), S: c.sortOf(t), GT: t}
+	for _, f := range c.typeFacts(v) {
+		st.assume(f)
+	}
 	return v
 }
 
